@@ -519,3 +519,267 @@ pub fn finish_replay(ctx: &Ctx, acc: &Acc) -> i32 {
         1
     }
 }
+
+// ---------------------------------------------------------------------------------------------
+// isolated execution: cases run in child processes so that aborts, stack overflows and hangs of the subject are
+// observed (and attributed to one case) instead of killing the check
+
+fn esc(s: &str) -> String {
+    s.replace('\\', "\\\\").replace('\n', "\\n").replace('\t', "\\t").replace('\r', "\\r")
+}
+
+fn unesc(s: &str) -> String {
+    let mut out = String::new();
+    let mut it = s.chars();
+    while let Some(c) = it.next() {
+        if c == '\\' {
+            match it.next() {
+                Some('n') => out.push('\n'),
+                Some('t') => out.push('\t'),
+                Some('r') => out.push('\r'),
+                Some('\\') => out.push('\\'),
+                Some(o) => out.push(o),
+                None => {}
+            }
+        } else {
+            out.push(c);
+        }
+    }
+    out
+}
+
+/// Per-case wall-clock limit inside a worker (seconds); a case exceeding it is reported as a timeout
+pub const CASE_TIME_LIMIT_S: f64 = 5.0;
+
+/// Child side. Runs cases lo..hi of `case(idx, acc)`. In careful mode prints `B <idx>` (flushed) before each case.
+/// A watchdog thread exits the process with code 3 after printing `T <idx>` when one case exceeds the limit.
+pub fn worker_loop(lo: u64, hi: u64, careful: bool, case: &(dyn Fn(u64, &mut Acc) + Sync)) -> i32 {
+    use std::io::Write;
+    use std::sync::Arc;
+    let current = Arc::new(AtomicU64::new(u64::MAX));
+    let started = Arc::new(Mutex::new(Instant::now()));
+    {
+        let current = current.clone();
+        let started = started.clone();
+        std::thread::spawn(move || {
+            loop {
+                std::thread::sleep(Duration::from_millis(50));
+                let idx = current.load(Ordering::SeqCst);
+                if idx != u64::MAX && started.lock().unwrap().elapsed().as_secs_f64() > CASE_TIME_LIMIT_S {
+                    // the case may have just finished: re-check
+                    if current.load(Ordering::SeqCst) == idx {
+                        let out = std::io::stdout();
+                        let mut l = out.lock();
+                        let _ = writeln!(l, "T {}", idx);
+                        let _ = l.flush();
+                        std::process::exit(3);
+                    }
+                }
+            }
+        });
+    }
+    let body = move || {
+        let mut acc = Acc::default();
+        let out = std::io::stdout();
+        for idx in lo..hi {
+            if careful {
+                let mut l = out.lock();
+                let _ = writeln!(l, "B {}", idx);
+                let _ = l.flush();
+            }
+            *started.lock().unwrap() = Instant::now();
+            current.store(idx, Ordering::SeqCst);
+            acc.cur_index = idx;
+            case(idx, &mut acc);
+            current.store(u64::MAX, Ordering::SeqCst);
+        }
+        let mut l = out.lock();
+        let _ = writeln!(l, "E {}", acc.evals);
+        for h in acc.nontrivial.iter().take(200_000) {
+            let _ = writeln!(l, "H {}", h);
+        }
+        for (k, n) in &acc.counters {
+            let _ = writeln!(l, "C {}\t{}", esc(k), n);
+        }
+        for (sig, (n, idx, v)) in &acc.viol {
+            let _ = writeln!(l, "V {}\t{}\t{}\t{}\t{}", esc(sig), n, idx, esc(&v.detail), esc(&v.replay));
+        }
+        for (idx, s) in &acc.samples {
+            let _ = writeln!(l, "S {}\t{}", idx, esc(&s.to_string_pretty()));
+        }
+        let _ = writeln!(l, "DONE");
+        let _ = l.flush();
+    };
+    // explicit 8 MiB stack: the calibration point for stack-depth findings
+    std::thread::scope(|sc| {
+        let h = std::thread::Builder::new().stack_size(8 << 20).spawn_scoped(sc, body);
+        match h {
+            Ok(h) => {
+                if h.join().is_ok() { 0 } else { 4 }
+            }
+            Err(_) => 4,
+        }
+    })
+}
+
+/// What the supervisor learned from one child
+struct ChildOutcome {
+    acc: Acc,
+    done: bool,
+    last_begun: Option<u64>,
+    timed_out: Option<u64>,
+    status: String,
+}
+
+fn run_child(prop: &str, space: &str, lo: u64, hi: u64, careful: bool, extra: &[String]) -> ChildOutcome {
+    use std::io::{BufRead, BufReader};
+    use std::process::{Command, Stdio};
+    let exe = std::env::current_exe().expect("current exe");
+    let mut cmd = Command::new(exe);
+    cmd.arg("--worker").arg(prop).arg(space).arg(lo.to_string()).arg(hi.to_string()).arg(if careful { "careful" } else { "fast" });
+    for e in extra {
+        cmd.arg(e);
+    }
+    cmd.stdout(Stdio::piped()).stderr(Stdio::null()).stdin(Stdio::null());
+    let mut child = match cmd.spawn() {
+        Ok(c) => c,
+        Err(e) => {
+            return ChildOutcome { acc: Acc::default(), done: false, last_begun: None, timed_out: None, status: format!("spawn failed: {}", e) };
+        }
+    };
+    let stdout = child.stdout.take().unwrap();
+    let mut acc = Acc::default();
+    let mut done = false;
+    let mut last_begun = None;
+    let mut timed_out = None;
+    for line in BufReader::new(stdout).lines().map_while(Result::ok) {
+        let (tag, rest) = line.split_at(line.len().min(2));
+        match tag {
+            "B " => last_begun = rest.trim().parse().ok(),
+            "T " => timed_out = rest.trim().parse().ok(),
+            "E " => acc.evals += rest.trim().parse::<u64>().unwrap_or(0),
+            "H " => {
+                if let Ok(h) = rest.trim().parse::<u64>() {
+                    acc.nontrivial.insert(h);
+                }
+            }
+            "C " => {
+                let mut it = rest.split('\t');
+                if let (Some(k), Some(n)) = (it.next(), it.next()) {
+                    let k = unesc(k);
+                    let n = n.parse().unwrap_or(0);
+                    if k.starts_with("max_") { acc.max(&k, n) } else { acc.add(&k, n) }
+                }
+            }
+            "V " => {
+                let f: Vec<&str> = rest.split('\t').collect();
+                if f.len() == 5 {
+                    let sig = unesc(f[0]);
+                    let n: u64 = f[1].parse().unwrap_or(1);
+                    let idx: u64 = f[2].parse().unwrap_or(0);
+                    let v = Violation { signature: sig.clone(), detail: unesc(f[3]), replay: unesc(f[4]) };
+                    acc.viol.insert(sig, (n, idx, v));
+                }
+            }
+            "S " => {
+                if let Some((i, j)) = rest.split_once('\t') {
+                    if let Ok(j) = json::parse(&unesc(j)) {
+                        acc.samples.push((i.parse().unwrap_or(0), j));
+                    }
+                }
+            }
+            _ => {
+                if line == "DONE" {
+                    done = true;
+                }
+            }
+        }
+    }
+    let status = match child.wait() {
+        Ok(s) => format!("{}", s),
+        Err(e) => format!("wait failed: {}", e),
+    };
+    ChildOutcome { acc, done, last_begun, timed_out, status }
+}
+
+/// Supervisor side: enumerate 0..total in child processes (one chunk per child, `ctx.jobs` children at a time).
+/// `describe(idx)` renders a case for the replay file of an abort/timeout (the supervisor never runs the subject).
+pub fn run_isolated(ctx: &Ctx, space: &str, total: u64, chunk: u64, extra: &[String], describe: &(dyn Fn(u64) -> (String, String) + Sync)) -> ParResult {
+    let chunk = chunk.max(1);
+    let nchunks = total.div_ceil(chunk);
+    let next = AtomicU64::new(0);
+    let done_chunks = AtomicU64::new(0);
+    let merged = Mutex::new(Acc::default());
+    std::thread::scope(|s| {
+        for _ in 0..ctx.jobs.max(1) {
+            s.spawn(|| {
+                loop {
+                    let c = next.fetch_add(1, Ordering::Relaxed);
+                    if c >= nchunks || ctx.out_of_time() {
+                        break;
+                    }
+                    let lo = c * chunk;
+                    let hi = (lo + chunk).min(total);
+                    let mut local = Acc::default();
+                    let first = run_child(&ctx.prop, space, lo, hi, false, extra);
+                    if first.done {
+                        local.merge(first.acc);
+                    } else {
+                        // the child died: redo the chunk carefully to find the culprit(s)
+                        let mut from = lo;
+                        let mut guard_iterations = 0;
+                        while from < hi && guard_iterations < 64 {
+                            guard_iterations += 1;
+                            let o = run_child(&ctx.prop, space, from, hi, true, extra);
+                            if o.done {
+                                local.merge(o.acc);
+                                break;
+                            }
+                            let culprit = o.timed_out.or(o.last_begun);
+                            match culprit {
+                                Some(idx) => {
+                                    let (family, replay) = describe(idx);
+                                    let sig = if o.timed_out.is_some() { format!("timeout|{}", family) } else { format!("abort|{}|{}", signal_name(&o.status), family) };
+                                    local.cur_index = idx;
+                                    local.evals += 1;
+                                    local.violation(Violation {
+                                        signature: sig,
+                                        detail: format!("case {} of space {}: worker {} ({}); limit {} s per case", idx, space, if o.timed_out.is_some() { "exceeded the time limit" } else { "died" }, o.status, CASE_TIME_LIMIT_S),
+                                        replay,
+                                    });
+                                    from = idx + 1;
+                                }
+                                None => {
+                                    local.violation(Violation {
+                                        signature: "machinery|worker-died-before-first-case".into(),
+                                        detail: format!("space {} chunk {}..{}: {}", space, from, hi, o.status),
+                                        replay: String::new(),
+                                    });
+                                    break;
+                                }
+                            }
+                        }
+                    }
+                    done_chunks.fetch_add(1, Ordering::Relaxed);
+                    merged.lock().unwrap().merge(local);
+                }
+            });
+        }
+    });
+    let acc = merged.into_inner().unwrap();
+    let dc = done_chunks.load(Ordering::Relaxed);
+    ParResult { acc, completed: dc == nchunks, reached: (dc * chunk).min(total), total }
+}
+
+fn signal_name(status: &str) -> String {
+    if status.contains("signal: 11") || status.contains("SIGSEGV") {
+        "SIGSEGV(stack-overflow)".into()
+    } else if status.contains("signal: 6") || status.contains("SIGABRT") {
+        // Rust aborts with SIGABRT on stack overflow ("thread has overflowed its stack") and on allocation failure
+        "SIGABRT(stack-overflow-or-alloc-failure)".into()
+    } else if status.contains("signal: 9") {
+        "SIGKILL".into()
+    } else {
+        status.replace(' ', "-")
+    }
+}
